@@ -14,7 +14,7 @@ for mod in mods:
     if not mod.startswith("PDesy.Props."):
         continue
     src = open(os.path.join(LEAN, mod.replace(".", "/") + ".lean")).read()
-    for name in re.findall(r"^theorem (C\d\d(?:_\w+)?)\b", src, re.M):
+    for name in re.findall(r"^theorem (C\d\d(?:_\w+)?)(?=[\s({:\[])", src, re.M):
         pid = name[:3]
         e = out.setdefault(pid, dict(modules=[], theorems=[]))
         if "counterexample" in name:
